@@ -37,7 +37,7 @@ Qed.
 
 Lemma share_sym : forall e f, share e f = share f e.
 Proof.
-  intros e f. unfold share. rewrite (N.eqb_sym (name e) (name f)).
+  intros e f. unfold share. rewrite (N.eqb_sym (name e) (name f)), (N.eqb_sym (spn e) (spn f)).
   destruct (gid e), (gid f); try reflexivity. rewrite (N.eqb_sym n n0). reflexivity.
 Qed.
 
@@ -237,19 +237,29 @@ Proof.
   - reflexivity.
 Qed.
 
+Lemma fixup_uuid : forall e, uuid (fixup e) = uuid e.
+Proof. intros e. unfold fixup. destruct (src e && negb (cls e =? 2)); reflexivity. Qed.
+
 Lemma upd_uuid : forall inc d, uuid (upd inc d) = uuid d.
 Proof.
   intros inc d. unfold upd. destruct (find (uuid d) inc) as [i|] eqn:E; [|reflexivity].
-  apply find_some in E. destruct E as [_ E]. apply resolve_uuid. exact E.
+  apply find_some in E. destruct E as [_ E]. rewrite fixup_uuid. apply resolve_uuid. exact E.
 Qed.
 
 Lemma upd_id : forall inc d, ~ In (uuid d) (map uuid inc) -> upd inc d = d.
 Proof. intros inc d H. unfold upd. rewrite (find_none _ _ H). reflexivity. Qed.
 
-Lemma news_in : forall inc d i, In i (news inc d) -> In i inc /\ ~ In (uuid i) (map uuid d).
+Lemma news_in : forall inc d i, In i (news inc d) -> In (uuid i) (map uuid inc) /\ ~ In (uuid i) (map uuid d).
 Proof.
-  intros inc d i H. unfold news in H. apply filter_In in H. destruct H as [A B].
-  split; [exact A|]. apply negb_true_iff in B. apply mem_false. exact B.
+  intros inc d i H. unfold news in H. apply in_map_iff in H. destruct H as [j [<- H]].
+  apply filter_In in H. destruct H as [A B]. rewrite fixup_uuid.
+  split; [apply in_map; exact A|]. apply negb_true_iff in B. apply mem_false. exact B.
+Qed.
+
+Lemma news_nodup : forall inc d, NoDup (map uuid inc) -> NoDup (map uuid (news inc d)).
+Proof.
+  intros inc d H. unfold news. rewrite (map_uuid_pres fixup _ fixup_uuid).
+  apply NoDup_map_filter. exact H.
 Qed.
 
 Lemma created_in : forall me c base inc d e,
@@ -299,13 +309,14 @@ Proof.
   unfold merged. rewrite !map_app. rewrite (map_uuid_pres (upd inc) d (upd_uuid inc)).
   apply NoDup_app_intro; [exact Hn | |].
   - apply NoDup_app_intro.
-    + unfold news. apply NoDup_map_filter. exact Hi.
+    + apply news_nodup. exact Hi.
     + apply created_nodup. exact Hn.
     + intros u Hu Hu'. apply in_map_iff in Hu. destruct Hu as [i [<- Hin]].
       apply news_in in Hin. destruct Hin as [Hin _].
+      apply in_map_iff in Hin. destruct Hin as [j [Hj Hjin]].
       apply in_map_iff in Hu'. destruct Hu' as [e [He Hc]].
       apply created_in in Hc. destruct Hc as [x [Hx ->]]. cbn in He.
-      specialize (Hbi i Hin). lia.
+      specialize (Hbi j Hjin). lia.
   - intros u Hu Hu'. apply in_app_iff in Hu'. destruct Hu' as [Hu'|Hu'].
     + apply in_map_iff in Hu'. destruct Hu' as [i [<- Hin]]. apply news_in in Hin.
       destruct Hin as [_ Hin]. contradiction.
@@ -324,7 +335,7 @@ Proof.
     assert (uuid x = uuid e) by (rewrite <- Hx; symmetry; apply upd_uuid).
     rewrite upd_id in Hx; [subst; exact Hxd | rewrite H; exact Hn].
   - apply in_app_iff in He. destruct He as [He|He].
-    + apply news_in in He. destruct He as [He _]. exfalso. apply Hn. apply in_map. exact He.
+    + apply news_in in He. destruct He as [He _]. exfalso. apply Hn. exact He.
     + apply created_in in He. destruct He as [x [_ ->]]. discriminate Hl.
 Qed.
 
@@ -520,11 +531,13 @@ Qed.
 
 Lemma ent_eqb_eq : forall a b, ent_eqb a b = true -> a = b.
 Proof.
-  intros [u1 a1 n1 nc1 g1 gc1 k1 kc1] [u2 a2 n2 nc2 g2 gc2 k2 kc2] H.
-  unfold ent_eqb in H. cbn [uuid at_ name name_c gid gid_c cls cls_c] in H.
+  intros [u1 a1 n1 nc1 s1 sc1 g1 gc1 k1 kc1 r1] [u2 a2 n2 nc2 s2 sc2 g2 gc2 k2 kc2 r2] H.
+  unfold ent_eqb in H. cbn [uuid at_ name name_c spn spn_c gid gid_c cls cls_c src] in H.
   repeat (apply andb_true_iff in H; let X := fresh "X" in destruct H as [H X]).
-  apply N.eqb_eq in H. apply cid_eqb_eq in X5. apply N.eqb_eq in X4. apply cid_eqb_eq in X3.
-  apply opt_eqb_eq in X2. apply cid_eqb_eq in X1. apply N.eqb_eq in X0. apply cid_eqb_eq in X.
+  apply N.eqb_eq in H. apply cid_eqb_eq in X8. apply N.eqb_eq in X7. apply cid_eqb_eq in X6.
+  apply N.eqb_eq in X5. apply cid_eqb_eq in X4.
+  apply opt_eqb_eq in X3. apply cid_eqb_eq in X2. apply N.eqb_eq in X1. apply cid_eqb_eq in X0.
+  apply Bool.eqb_prop in X.
   subst. reflexivity.
 Qed.
 
@@ -572,7 +585,7 @@ Lemma gshare_gen : forall a b, gshare (gen_of a) (gen_of b) = true -> share a b 
 Proof.
   intros a b. unfold gshare, gen_of, share, pair_eqb. cbn [fst snd app existsb].
   destruct (gid a) as [ga|], (gid b) as [gb|]; cbn [fst snd app existsb];
-  destruct (name a =? name b); cbn; try reflexivity; try discriminate;
+  destruct (name a =? name b); destruct (spn a =? spn b); cbn; try reflexivity; try discriminate;
   rewrite ?orb_false_r; intros H; try discriminate; exact H.
 Qed.
 
@@ -714,7 +727,7 @@ Qed.
 Theorem consume_declarative : forall me c base inc d,
   Uniq d -> consume_ok base inc d = true ->
   let d1 := merged me c base inc d in
-  consume me c base inc d = map (fun x => if clash1 d1 x then set_cls c 2 x else x) d1.
+  consume me c base inc d = map (fun x => if clash1 d1 x then to_conflict c x else x) d1.
 Proof.
   intros me c base inc d U Hok d1. unfold consume, apply_marks.
   apply map_ext_in. intros x Hx. pose proof (marks_exact me c base inc d U Hok x Hx) as E.
